@@ -28,6 +28,7 @@ type SpecEnv struct {
 	goal   bool      // the formula is to be proved (facts become premises) rather than assumed (facts are conjoined)
 	deriveDepth int
 	deriving map[string]bool // ghost fields whose derivation is being expanded (no self-recursion)
+	qprefix  string          // name prefix of variables bound by a quantified assigns target (default q$)
 }
 
 var untypedInt = types.Typ[types.UntypedInt]
@@ -337,7 +338,27 @@ func (e *SpecEnv) term(x Expr) (Val, error) {
 				body += ")"
 			}
 		} else {
-			body = and(append(append(guards, fs...), body)...)
+			if e.goal {
+				// to be proved: the type invariants of what the body reads are
+				// premises (they hold of every well-typed heap), the witness itself
+				// must be well-formed
+				body = and(append(append([]string{}, guards...), implies(and(fs...), body))...)
+			} else {
+				body = and(append(append(guards, fs...), body)...)
+			}
+			if len(n.Pats) > 0 {
+				var ps []string
+				for _, pe := range n.Pats {
+					before := len(c.Log)
+					pv, err := ne.term(pe)
+					c.Log = c.Log[:before]
+					if err != nil {
+						return Val{}, fmt.Errorf("pattern: %v", err)
+					}
+					ps = append(ps, pv.T)
+				}
+				body = "(! " + body + " :pattern (" + strings.Join(ps, " ") + "))"
+			}
 		}
 		return Val{T: "(" + k + " (" + strings.Join(binds, " ") + ") " + body + ")", Typ: boolT}, nil
 	case *ESel:
@@ -1001,6 +1022,52 @@ func (e *SpecEnv) call(n *ECall) (Val, error) {
 				t = types.Typ[types.Int]
 			}
 			return Val{T: c.eidx(e.idx(a), e.idx(b)), Typ: t}, nil
+		case "visited":
+			// visited(k): key k has been produced by the map range loop at whose head this invariant stands
+			if e.at == nil || e.f == nil {
+				return Val{}, fmt.Errorf("visited() is only meaningful in a loop invariant")
+			}
+			var nx *ssa.Next
+			for _, ins := range e.at.Instrs {
+				if n2, ok := ins.(*ssa.Next); ok {
+					nx = n2
+				}
+			}
+			if nx == nil || nx.IsString {
+				return Val{}, fmt.Errorf("visited(): the loop is not a range over a map")
+			}
+			rng, _ := nx.Iter.(*ssa.Range)
+			it, ok := e.f.vals[nx.Iter]
+			if rng == nil || !ok {
+				return Val{}, fmt.Errorf("visited(): iterator not available")
+			}
+			mt := rng.X.Type().Underlying().(*types.Map)
+			kv, err := e.term(n.Args[0])
+			if err != nil {
+				return Val{}, err
+			}
+			h := "IterSeen$" + typeKey(mt.Key())
+			c.heapSort[h] = "(Array Int (Array " + c.sortOf(mt.Key()) + " Bool))"
+			return Val{T: "(select (select " + c.heapGet(e.cur, h, c.heapSort[h]) + " " + it.T + ") " + kv.T + ")", Typ: boolT}, nil
+		case "hdrGet":
+			m, err := e.term(n.Args[0])
+			if err != nil {
+				return Val{}, err
+			}
+			k, err := e.term(n.Args[1])
+			if err != nil {
+				return Val{}, err
+			}
+			if _, ok := m.Typ.Underlying().(*types.Map); !ok {
+				return Val{}, fmt.Errorf("hdrGet on non-header")
+			}
+			return Val{T: c.hdrGetTerm(e.cur, m, k.T), Typ: types.Typ[types.String]}, nil
+		case "iface":
+			v, err := e.term(n.Args[0])
+			if err != nil {
+				return Val{}, err
+			}
+			return Val{T: c.box(v), Typ: types.NewInterfaceType(nil, nil)}, nil
 		case "entry":
 			// entry(p): the value parameter p had on entry (heap reads through it use the current state)
 			if id, ok := n.Args[0].(*EIdent); ok && e.f != nil {
@@ -1101,7 +1168,11 @@ func (e *SpecEnv) call(n *ECall) (Val, error) {
 			if err != nil {
 				return Val{}, err
 			}
-			tt, err := e.resolveType(exprString(n.Args[1]))
+			tname2 := exprString(n.Args[1])
+			if l, ok := n.Args[1].(*ELit); ok && l.Kind == "string" {
+				tname2, _ = strconv.Unquote(l.Val)
+			}
+			tt, err := e.resolveType(tname2)
 			if err != nil {
 				return Val{}, err
 			}
@@ -1483,6 +1554,60 @@ func (e *SpecEnv) resolveType(s string) (types.Type, error) {
 func (e *SpecEnv) targets(x Expr) ([]havocTarget, error) {
 	c := e.c
 	switch n := x.(type) {
+	case *EQuant:
+		// forall k T :: guard ==> target   (a set of locations)
+		if !n.Forall {
+			return nil, fmt.Errorf("assigns: exists is not a location set")
+		}
+		ne := e.clone()
+		var binds, guards []string
+		pfx := "q$"
+		if e.qprefix != "" {
+			pfx = e.qprefix
+		}
+		for _, bv := range n.Vars {
+			t, err := e.resolveType(bv.Type)
+			if err != nil {
+				return nil, err
+			}
+			nm := pfx + bv.Name
+			binds = append(binds, "("+nm+" "+c.sortOf(t)+")")
+			ne.vars[bv.Name] = Val{T: nm, Typ: t}
+			ne.bound[bv.Name] = true
+			if t != mathInt {
+				if _, isInt := intInfoOf(t); !isInt {
+					guards = append(guards, c.typeFacts(nm, t, ""))
+				}
+			}
+		}
+		body := n.Body
+		if b, ok := body.(*EBin); ok && b.Op == "==>" {
+			g, err := ne.boolTerm(b.L)
+			if err != nil {
+				return nil, err
+			}
+			guards = append(guards, g)
+			body = b.R
+		}
+		ne.facts = &[]string{}
+		ts, err := ne.targets(body)
+		if err != nil {
+			return nil, err
+		}
+		for i := range ts {
+			if ts[i].key == "" {
+				continue
+			}
+			if ts[i].qbind != "" {
+				return nil, fmt.Errorf("assigns: nested quantified targets")
+			}
+			ts[i].qbind = "(" + strings.Join(binds, " ") + ")"
+			ts[i].cond = and(append(append([]string{}, guards...), ts[i].cond)...)
+			if ts[i].cond == "" {
+				ts[i].cond = "true"
+			}
+		}
+		return ts, nil
 	case *ESel:
 		base, err := e.term(n.X)
 		if err != nil {
@@ -1504,7 +1629,7 @@ func (e *SpecEnv) targets(x Expr) ([]havocTarget, error) {
 					return e.objTargets(sub, ft), nil
 				}
 				h, _ := c.fieldHeap(pt.Elem(), i)
-				return []havocTarget{{h, base.T, ""}}, nil
+				return []havocTarget{{h, base.T, "", ""}}, nil
 			}
 		}
 		return nil, fmt.Errorf("assigns: no field %s", n.Sel)
@@ -1533,7 +1658,7 @@ func (e *SpecEnv) targets(x Expr) ([]havocTarget, error) {
 					return nil, fmt.Errorf("elems of non-slice")
 				}
 				h, _ := c.memHeap(sl.Elem())
-				return []havocTarget{{h, "(sl.base " + s.T + ")", ""}}, nil
+				return []havocTarget{{h, "(sl.base " + s.T + ")", "", ""}}, nil
 			case "entries":
 				m, err := e.term(n.Args[0])
 				if err != nil {
@@ -1544,7 +1669,7 @@ func (e *SpecEnv) targets(x Expr) ([]havocTarget, error) {
 					return nil, fmt.Errorf("entries of non-map")
 				}
 				d, v := c.mapHeaps(mt)
-				return []havocTarget{{d, m.T, ""}, {v, m.T, ""}, {e.f.mapLenHeap(), m.T, ""}}, nil
+				return []havocTarget{{d, m.T, "", ""}, {v, m.T, "", ""}, {e.f.mapLenHeap(), m.T, "", ""}}, nil
 			case "all":
 				// all(ghostname): the ghost field of every object
 				if gid, ok := n.Args[0].(*EIdent); ok {
@@ -1553,7 +1678,7 @@ func (e *SpecEnv) targets(x Expr) ([]havocTarget, error) {
 						if err != nil {
 							return nil, err
 						}
-						return []havocTarget{{c.ghostHeap(gid.Name, srt), "", ""}}, nil
+						return []havocTarget{{c.ghostHeap(gid.Name, srt), "", "", ""}}, nil
 					}
 				}
 				return nil, fmt.Errorf("all(...) takes a ghost field name")
@@ -1584,15 +1709,15 @@ func (c *Ctx) objTargets(r string, t types.Type) []havocTarget {
 				out = append(out, c.objTargets(c.subRef(t, i, r), ft)...)
 			} else {
 				h, _ := c.fieldHeap(t, i)
-				out = append(out, havocTarget{h, r, ""})
+				out = append(out, havocTarget{h, r, "", ""})
 			}
 		}
 	case *types.Array:
 		h, _ := c.memHeap(u.Elem())
-		out = append(out, havocTarget{h, r, ""})
+		out = append(out, havocTarget{h, r, "", ""})
 	default:
 		h, _ := c.cellHeap(t)
-		out = append(out, havocTarget{h, r, ""})
+		out = append(out, havocTarget{h, r, "", ""})
 	}
 	return out
 }
@@ -1801,7 +1926,7 @@ func (e *SpecEnv) ghostTargets(g *GhostDecl, v Val, depth int) ([]havocTarget, e
 		return nil, err
 	}
 	h := c.ghostHeap(g.Name, srt)
-	out := []havocTarget{{h, k, ""}}
+	out := []havocTarget{{h, k, "", ""}}
 	if e.deriving[g.Name] {
 		return out, nil
 	}
